@@ -61,6 +61,7 @@ type Path struct {
 	statusMsg string
 	allocHook func(*Term)
 	notes     []string
+	cross     []CrossQuery
 }
 
 func (p *Path) replaying() bool { return p.pos < len(p.prefix) }
@@ -90,6 +91,16 @@ type HarnessResult struct {
 	Steps        int64
 	Traces       []*ThreadTrace // thread mode
 	MaxPaths     bool
+	CrossQueries []CrossQuery
+	Outs         [][]string
+	SchedStates, SchedTransitions, SchedValidated int
+}
+
+// CrossQuery is a sampled assertion query kept for re-checking by other solvers.
+type CrossQuery struct {
+	Label   string
+	Script  string
+	Verdict string
 }
 
 type Explorer struct {
@@ -275,6 +286,14 @@ func (ex *Explorer) collectPath(in *Interp) {
 	}
 	for _, k := range p.notes {
 		r.Distinct[k] = true
+	}
+	for _, q := range p.cross {
+		if len(r.CrossQueries) < 60 {
+			r.CrossQueries = append(r.CrossQueries, q)
+		}
+	}
+	if len(p.outs) > 0 && len(r.Outs) < 50 {
+		r.Outs = append(r.Outs, p.outs)
 	}
 	if len(r.Samples) < 6 && len(p.asserts) > 0 {
 		last := p.asserts[len(p.asserts)-1]
@@ -629,9 +648,12 @@ func (in *Interp) assertProp(c *Term, label string) {
 		p.viols = append(p.viols, v)
 	case Unsat:
 		in.solver.Pop()
-		p.notes = append(p.notes, fmt.Sprintf("%s/%d/%d", label, nc.id, pcHash(p.pc)))
+		p.notes = append(p.notes, fmt.Sprintf("%s/%v", label, decList(p.dec)))
 	default:
 		in.solver.Pop()
+	}
+	if r != Unknown && len(p.cross) < 2 && (len(p.dec)+len(label)+len(p.pc))%7 == 0 {
+		p.cross = append(p.cross, CrossQuery{Label: label, Verdict: r.String(), Script: Script(append(append([]*Term{}, p.pc...), nc), false)})
 	}
 	p.asserts = append(p.asserts, rec)
 	p.dec = append(p.dec, Decision{V: viol})
